@@ -30,13 +30,16 @@ SpecStep(e) ==
     [] e.op = "next_mem" -> [file |-> file, mem |-> (mem + 1) % M, ret |-> [v |-> mem]]
     [] e.op = "delete" -> [file |-> Missing, mem |-> mem, ret |-> "none"]
     [] e.op = "scribble" -> [file |-> LoggedFile(e), mem |-> mem, ret |-> "none"]
+    \* the public max_bit_width setter (driven only while the stored counts fit the new width): nothing else changes,
+    \* all later calls count modulo the new 2^width
+    [] e.op = "set_width" -> [file |-> file, mem |-> mem, ret |-> "none"]
 
 TraceInit == l = 1 /\ w = 1 /\ file = Missing /\ mem = 0 /\ prev = -1 /\ prevMem = -1 /\ ev = [a |-> "trace"]
 
 TraceNext ==
   /\ l <= Len(Tr)
   /\ LET e == Tr[l] IN
-       /\ w' = IF e.op = "init" THEN e.w ELSE w
+       /\ w' = IF e.op \in {"init", "set_width"} THEN e.w ELSE w
        /\ IF e.op = "init" THEN /\ file' = LoggedFile(e) /\ mem' = 0
           ELSE LET x == SpecStep(e)
                    okRet  == x.ret = e.ret
